@@ -282,9 +282,15 @@ def perturb_glyph(rng, g, mode, comp_2x2=False):
         t[4] += _delta(rng, mode)
         t[5] += _delta(rng, mode)
         if comp_2x2:
+            t0 = list(t)
             for k in range(4):
                 if rng.random() < 0.6:
                     t[k] += rng.choice([0.25, -0.25, 0.125, 0.5, -0.125])
+            # a reference keeps its orientation in every master (a component that is mirrored
+            # in some masters only is a stratum of its own, see C09)
+            d0, d1 = t0[0] * t0[3] - t0[1] * t0[2], t[0] * t[3] - t[1] * t[2]
+            if d0 * d1 <= 0:
+                t[:4] = t0[:4]
         c["t"] = t
     for a in h["anchors"]:
         a["x"] += _delta(rng, mode)
